@@ -34,7 +34,7 @@ def scribble(x):
         a += 12345.678
 
 
-OPS = ["edge.calc_error", "edge.calc_chi2", "edge.calc_jacobians", "edge.num_jacobians", "edge.chi2_grad_hess", "edge.is_valid", "graph.calc_chi2", "graph.cgh", "graph.equals", "graph.to_g2o", "edge.to_g2o", "vertex.to_g2o", "pose.copy", "pose.add", "pose.sub", "pose.iadd", "pose.inverse", "pose.views", "pose.jacobians", "pose.equals", "optimize"]
+OPS = ["pose.boxplus", "edge.calc_error", "edge.calc_chi2", "edge.calc_jacobians", "edge.num_jacobians", "edge.chi2_grad_hess", "edge.is_valid", "graph.calc_chi2", "graph.cgh", "graph.equals", "graph.to_g2o", "edge.to_g2o", "vertex.to_g2o", "pose.copy", "pose.add", "pose.sub", "pose.iadd", "pose.inverse", "pose.views", "pose.jacobians", "pose.equals", "optimize"]
 
 
 def run(seed, n_traces, length):
@@ -118,6 +118,15 @@ def run(seed, n_traces, length):
                         f = v.pose.copy
                     elif op == "pose.add":
                         f = lambda: v.pose + w.pose
+                    elif op == "pose.boxplus":
+                        # `pose + ndarray` (box-plus / point action): the increment array is an operand and must not be written
+                        c = v.pose.COMPACT_DIMENSIONALITY
+                        inc = np.array([rng.gauss(0, rng.choice([1e-3, 0.3, 2.0])) for _ in range(c)])
+                        inc_bits = inc.tobytes()
+
+                        def f():
+                            out = v.pose + inc
+                            return [np.array(out), inc.tobytes() == inc_bits]
                     elif op == "pose.sub":
                         f = lambda: v.pose - w.pose
                     elif op == "pose.inverse":
@@ -146,6 +155,8 @@ def run(seed, n_traces, length):
                         continue
                     if op == "pose.iadd" and not r1[1]:
                         bad("+= mutated the operand in place")
+                    if op == "pose.boxplus" and not (r1[1] and inc.tobytes() == inc_bits):
+                        bad("pose + ndarray wrote to its right operand", increment=np.frombuffer(inc_bits).tolist())
                     # aliasing probe: scribbling over the returned arrays must not reach stored state
                     scribble(r2)
                     res["alias_probes"] += 1
